@@ -192,6 +192,8 @@ const SHAPES: [Shape; 8] = [Shape::Range, Shape::RangeInclusive, Shape::RangeFro
 
 #[derive(Debug, Clone, Copy, PartialEq, Eq)]
 pub enum Filter {
+    /// `Extend<SymbolSize>`: symbols given as a 48-bit mask are added (set union)
+    Extend(u64),
     Square,
     Rect,
     Width(Shape, usize, usize),
@@ -239,6 +241,11 @@ fn apply_height(l: SymbolList, s: Shape, a: usize, b: usize) -> SymbolList {
 
 fn apply(l: SymbolList, f: Filter) -> SymbolList {
     match f {
+        Filter::Extend(m) => {
+            let mut l = l;
+            l.extend(mask_to_vec(m));
+            l
+        }
         Filter::Square => l.enforce_square(),
         Filter::Rect => l.enforce_rectangular(),
         Filter::Width(s, a, b) => apply_width(l, s, a, b),
@@ -247,9 +254,13 @@ fn apply(l: SymbolList, f: Filter) -> SymbolList {
 }
 
 fn model(mask: u64, f: Filter) -> u64 {
+    if let Filter::Extend(m) = f {
+        return mask | m;
+    }
     (0..48).filter(|i| mask >> i & 1 == 1).filter(|i| {
         let s = &SYMBOLS[*i];
         match f {
+            Filter::Extend(_) => true,
             Filter::Square => s.rows == s.cols,
             Filter::Rect => s.rows != s.cols,
             Filter::Width(sh, a, b) => shape_contains(sh, a, b, s.cols),
@@ -260,6 +271,7 @@ fn model(mask: u64, f: Filter) -> u64 {
 
 fn filter_json(f: &Filter) -> Value {
     match f {
+        Filter::Extend(m) => json!({"extend": mask_names(*m)}),
         Filter::Square => json!("square"),
         Filter::Rect => json!("rectangular"),
         Filter::Width(s, a, b) => json!({"width": format!("{:?}", s), "a": a, "b": b}),
@@ -273,6 +285,9 @@ fn filter_from(v: &Value) -> Option<Filter> {
     }
     if v == "rectangular" {
         return Some(Filter::Rect);
+    }
+    if let Some(e) = v.get("extend") {
+        return Some(Filter::Extend(names_to_mask(e)?));
     }
     let (key, is_w) = if v.get("width").is_some() { ("width", true) } else { ("height", false) };
     let shape = SHAPES.iter().copied().find(|s| format!("{:?}", s) == v[key].as_str().unwrap_or(""))?;
@@ -299,6 +314,8 @@ impl ChainCase {
         let base = match v["base"].as_str()? {
             "default" => "default",
             "all" => "all",
+            "collect" => "collect",
+            "from-array" => "from-array",
             _ => "whitelist",
         };
         let whitelist = v["whitelist"].as_array()?.iter().map(|n| refimpl::table::index_of(n.as_str()?)).collect::<Option<Vec<_>>>()?;
@@ -318,6 +335,19 @@ fn check_chain(c: &ChainCase) -> Verdict {
     let (mut l, mut m) = match c.base {
         "default" => (SymbolList::default(), default_mask()),
         "all" => (SymbolList::all(), ALL_MASK),
+        "collect" => (c.whitelist.iter().map(|i| CRATE_SYMBOLS[*i]).collect::<SymbolList>(), c.whitelist.iter().fold(0u64, |m, i| m | 1 << i)),
+        "from-array" => {
+            // From<[SymbolSize; N]> for N = 0..=3 and From<SymbolSize>
+            let w: Vec<SymbolSize> = c.whitelist.iter().take(3).map(|i| CRATE_SYMBOLS[*i]).collect();
+            let m = c.whitelist.iter().take(3).fold(0u64, |m, i| m | 1 << i);
+            let l = match w.len() {
+                0 => SymbolList::from([] as [SymbolSize; 0]),
+                1 => SymbolList::from(w[0]),
+                2 => SymbolList::from([w[0], w[1]]),
+                _ => SymbolList::from([w[0], w[1], w[2]]),
+            };
+            (l, m)
+        }
         _ => (SymbolList::with_whitelist(c.whitelist.iter().map(|i| CRATE_SYMBOLS[*i])), c.whitelist.iter().fold(0u64, |m, i| m | 1 << i)),
     };
     let r = guard(|| {
@@ -336,6 +366,11 @@ fn check_chain(c: &ChainCase) -> Verdict {
             return Err(format!("is_empty() = {} for {}", l.is_empty(), mask_names(m)));
         }
         order_ok(&l)?;
+        for i in 0..48 {
+            if l.contains(&CRATE_SYMBOLS[i]) != (m >> i & 1 == 1) {
+                return Err(format!("contains({}) = {} but iteration says the opposite (list {})", SYMBOLS[i].name, l.contains(&CRATE_SYMBOLS[i]), mask_names(m)));
+            }
+        }
         Ok(())
     });
     match r {
@@ -362,6 +397,8 @@ fn g_filter() -> BoxedStrategy<Filter> {
     prop_oneof![
         1 => Just(Filter::Square),
         1 => Just(Filter::Rect),
+        // Extend by one to four symbols (they may already be in the list)
+        2 => vec(any::<u16>(), 1..=4).prop_map(|v| Filter::Extend(v.iter().fold(0u64, |m, r| m | 1 << pick(*r, 48)))),
         4 => (any::<u16>(), dims(), dims()).prop_map(|(s, a, b)| Filter::Width(SHAPES[pick(s, 8)], a, b)),
         4 => (any::<u16>(), dims(), dims()).prop_map(|(s, a, b)| Filter::Height(SHAPES[pick(s, 8)], a, b)),
     ]
@@ -371,7 +408,7 @@ fn g_filter() -> BoxedStrategy<Filter> {
 fn g_chain() -> BoxedStrategy<ChainCase> {
     (any::<u16>(), vec(any::<u16>(), 0..60), vec(g_filter(), 0..=4))
         .prop_map(|(b, wl, chain)| {
-            let base = ["whitelist", "whitelist", "default", "all"][pick(b, 4)];
+            let base = ["whitelist", "whitelist", "default", "all", "collect", "from-array"][pick(b, 6)];
             ChainCase { whitelist: wl.iter().map(|r| pick(*r, 48)).collect(), base, chain }
         })
         .boxed()
